@@ -30,7 +30,7 @@ type htmlGen struct {
 }
 
 // ("block" without the tag prefix is an ordinary element; so are names that merely start or end like a directive tag)
-var gTagNames = []string{"p", "div", "span", "a", "ul", "li", "b", "h1", "x-y", "tr", "P", "Div", "é", "br", "img", "input", "meta",
+var gTagNames = []string{"p", "div", "span", "a", "ul", "li", "b", "h1", "x-y", "tr", "P", "Div", "é", "br", "img", "input", "meta", "BR", "Img", "INPUT", "Meta", "!DOCTYPE", "!doctype",
 	"block", "Block", "BLOCK", "blockquote", "tblock", "t", "template"}
 // (the directive keywords WITHOUT the directive prefix are ordinary attributes: a tag carrying them is still directive-free)
 var gAttrNames = []string{"id", "class", "href", "title", "data-x", "hidden", "a", "b", "x:y", "A", "é", "on_click", "v-if", "@x",
